@@ -57,12 +57,29 @@ static bool core_run(const Case & c, std::vector<bxdecay0::event> & evs, std::st
       op->set(mc); g.add_operation(op);
     }
     g.initialize(prng);
+    // a generated window can cut the spectrum down to a sliver: sampling inside it is slower by the full-range/window ratio by design
+    // (C03/C04 treat it the same way) - such a request is initialised on both sides but not sampled
+    if (f.decay_category == "dbd" && g.get_to_all_events() > 200.0) { why = "window-ratio-above-200"; return false; }
     for (int k = 0; k < c.nev; k++) { bxdecay0::event e; g.shoot(prng, e); evs.push_back(e); }
   } catch (std::exception & e) { why = e.what(); return false; }
   return true;
 }
 
 struct Res { bool ok = true; std::string cls, msg, nt; };
+
+// A generated window can leave a sliver below the end point where the tabulated spectrum is ~1e-10 of its maximum: the reference algorithm
+// samples against the GLOBAL maximum, so even the one event drawn during initialisation takes practically forever (by design; C03/C04 keep
+// away from such windows by construction).  Requests with a window are first initialised in a child under a 4 s alarm; if that does not
+// finish the request is skipped on both sides.
+#include <sys/wait.h>
+static bool init_finishes(const Case & c)
+{
+  const auto & f = c.cf;
+  if (!(f.decay_category == "dbd" && (f.dbd_min_energy_MeV > 0 || f.dbd_max_energy_MeV > 0))) return true;
+  pid_t pid = fork(); if (pid < 0) return true;
+  if (pid == 0) { alarm(4); std::vector<bxdecay0::event> evs; std::string why; Case c0 = c; c0.nev = 0; core_run(c0, evs, why); _exit(0); }
+  int st = 0; waitpid(pid, &st, 0); return !(WIFSIGNALED(st) && WTERMSIG(st) == SIGALRM);
+}
 
 // One action object is driven through a SEQUENCE of requests (SetConfiguration, optionally DestroyConfiguration in between):
 // every step must behave as a fresh action would for that request.
@@ -75,7 +92,9 @@ static Res run_steps(const std::vector<Case> & steps, const std::vector<int> & d
   for (size_t si = 0; si < steps.size(); si++) {
     const Case & c = steps[si];
     std::string stepname = steps.size() > 1 ? "step " + std::to_string(si) + " of a reused action: " : "";
+    if (!init_finishes(c)) { nt += "skipped-sliver-window;"; action.DestroyConfiguration(); continue; }
     std::vector<bxdecay0::event> core; std::string why; bool core_ok = core_run(c, core, why);
+    if (why == "window-ratio-above-200") { nt += "skipped-sliver-window;"; action.DestroyConfiguration(); continue; }
     G4RunManager::GetRunManager()->abort_count = 0; G4StubExceptions::count() = 0;
     std::vector<G4Event> evs(c.nev); bool threw = false; std::string what; std::vector<G4ThreeVector> vtx;
     if (destroy_before[si]) action.DestroyConfiguration();
